@@ -634,6 +634,17 @@ func (i *PostingsIterator) nextDocNumAtOrAfter(atOrAfter uint64) (uint64, bool, 
 		return 0, false, nil
 	}
 
+	if atOrAfter > math.MaxUint32 {
+		// document numbers are 32 bits wide, so no hit is at or after this
+		// target; the uint32 conversions below would wrap it around instead.
+		// consume what is left, as advancing past the last hit does.
+		i.Actual.AdvanceIfNeeded(math.MaxUint32)
+		if i.Actual.HasNext() {
+			i.Actual.Next()
+		}
+		return 0, false, nil
+	}
+
 	if i.postings.postings == i.ActualBM {
 		return i.nextDocNumAtOrAfterClean(atOrAfter)
 	}
